@@ -233,6 +233,29 @@ theorem pick_order_independent (fin : Nat) (b₁ b₂ : Buf) (hb : b₁.NodupKey
     (hp : ∀ e, e ∈ b₁ ↔ e ∈ b₂) : pickMax fin b₁ = pickMax fin b₂ :=
   pickMax_perm hb hp
 
+/-! ## the geth forwarding layer -/
+
+/-- What the forwarding layer (`WatchStateUpdate`/`forwardStateUpdates`, `FilterStateUpdate`)
+hands to the client is, log by log and in order, what the L1 node delivered: same length, same L1
+block, same `removed` flag — no removal notice is ever swallowed, whatever came before it on the
+subscription (several reorgs, bursts of removed logs). Together with `live_spec` this is what makes
+"reported removed by the L1 node" and "removal notice received by the client" the same thing. -/
+theorem forward_preserves_every_log (rs : List RawLog) :
+    (forwardStream rs).length = rs.length ∧
+    (forwardStream rs).map (fun u => (u.l1, u.removed)) = rs.map (fun r => (r.l1, r.removed)) ∧
+    ∀ a b, forwardStream (a ++ b) = forwardStream a ++ forwardStream b := by
+  refine ⟨by simp [forwardStream], ?_, by intro a b; simp [forwardStream]⟩
+  simp [forwardStream, decodeLog, Function.comp_def]
+
+/-- Values in range are passed on unchanged (Starknet block numbers below 2^64, felts below P). -/
+theorem decode_in_range (r : RawLog) (h1 : r.blockNumber < 2 ^ 64) (h2 : r.blockHash < feltP)
+    (h3 : r.globalRoot < feltP) :
+    decodeLog r = ⟨r.blockNumber, r.blockHash, r.globalRoot, r.l1, r.removed⟩ := by
+  simp [decodeLog, Nat.mod_eq_of_lt h1, Nat.mod_eq_of_lt h2, Nat.mod_eq_of_lt h3]
+
+example : forwardStream [⟨1, 7, 2, 5, false⟩, ⟨1, 7, 2, 5, true⟩, ⟨3, 8, feltP + 4, 6, true⟩] =
+    [⟨7, 2, 1, 5, false⟩, ⟨7, 2, 1, 5, true⟩, ⟨8, 4, 3, 6, true⟩] := by decide
+
 /-! ## start-up catch-up -/
 
 /-- The catch-up scan is a trace of the event loop: its effect is that of delivering the scanned
